@@ -274,7 +274,7 @@ def merge(partials):
                 out["monitors"][k][kk] += vv
         out["nt"].update(p["nt"])
         for s in p["samples"]:
-            if fam_samples[s["family"]] < 2 and len(out["samples"]) < MAX_SAMPLES:
+            if fam_samples[s["family"]] < 2:
                 fam_samples[s["family"]] += 1
                 out["samples"].append(s)
         out["reach"].update(p["reach"])
@@ -297,6 +297,12 @@ def merge(partials):
                 out["notes"][k] = out["notes"].get(k, 0) + v     # numeric notes add up over shards
             else:
                 out["notes"].setdefault(k, v)
+    # one sample per family first (every family represented), then second samples up to the cap
+    first, second, seen = [], [], set()
+    for smp in out["samples"]:
+        (second if smp["family"] in seen else first).append(smp)
+        seen.add(smp["family"])
+    out["samples"] = (first + second)[:max(MAX_SAMPLES, len(first))]
     return out
 
 
@@ -373,7 +379,7 @@ def finish(mod, tier, seed, merged, wall, replay_mode=False):
         "evaluations": int(evaluations),
         "distinct_nontrivial": len(merged["nt"]),
         "rule": mod.RULE,
-        "samples": merged["samples"][:MAX_SAMPLES],
+        "samples": merged["samples"],
         "exhaustive": bool(getattr(mod, "EXHAUSTIVE", False)),
         "monitors": {k: dict(v) for k, v in sorted(merged["monitors"].items())},
         "max_relative_error_seen": {k: float("%.3g" % v) for k, v in sorted(merged["max_err"].items())},
@@ -496,12 +502,45 @@ def main_check(mod, tier, seed, nproc=None):
                 partials.append(_prep(json.load(f)))
         import shutil
         shutil.rmtree(work, ignore_errors=True)
+        if tier == "thorough" and getattr(mod, "SUITE", False):
+            sp, note = run_suite(mod, seed)
+            partials += sp
+            partials.append({"monitors": {}, "nt": [], "samples": [], "reach": {"suite-workload-worker-logs": len(sp)},
+                             "dropped": {}, "witnesses": [], "mech_counts": {}, "cases_run": {}, "capped": {}, "timeouts": 0,
+                             "notes": note, "max_err": {}, "track": {}})
         merged = merge(partials)
         if shard_fail:
             merged["reach"]["__shard_failures__"] = len(shard_fail)
             merged["notes"]["shard_failures"] = shard_fail
             merged["timeouts"] += len(shard_fail)
     return finish(mod, tier, seed, merged, time.time() - t0)
+
+
+def run_suite(mod, seed):
+    """Thorough-tier extra workload (DESIGN §2.5): the repository's own test suite with the property's
+    postconditions attached (rv/suite_monitors.py); returns the workers' partial results."""
+    import glob
+    import shutil
+    tests = os.path.join(REPO, "tests")
+    if not os.path.isdir(tests):
+        return [], {"suite_workload": "skipped: no tests directory under RV_REPO"}
+    log = os.path.join(VERIF, ".work", f"suite-{mod.PID}-{os.getpid()}")
+    shutil.rmtree(log, ignore_errors=True)
+    os.makedirs(log, exist_ok=True)
+    env = dict(os.environ, RV_SUITE_PIDS=mod.PID, RV_SUITE_LOG=log, VERIF_SEED=str(seed))
+    cmd = [sys.executable, "-B", "-m", "pytest", "-q", "-p", "no:cacheprovider", "-p", "rv.pytest_plugin", "-n",
+           str(min(12, os.cpu_count() or 1)), "--timeout=900", "tests", "--deselect", "tests/test_mamba.py"]
+    try:
+        r = subprocess.run(cmd, cwd=REPO, env=env, capture_output=True, text=True, timeout=3000)
+        tail = (r.stdout.strip().splitlines() or ["?"])[-1]
+    except subprocess.TimeoutExpired:
+        tail = "timeout"
+    partials = []
+    for f in glob.glob(os.path.join(log, f"{mod.PID}-*.json")):
+        with open(f) as fh:
+            partials.append(_prep(json.load(fh)))
+    shutil.rmtree(log, ignore_errors=True)
+    return partials, {"suite_workload": f"repository suite under monitors: {len(partials)} worker logs; pytest said: {tail[:120]}"}
 
 
 def _prep(p):
